@@ -1002,6 +1002,15 @@ def gen_C15(c, rng, tier):
                     c.add(t, 'run', s, classes=cl + ['rollback_%s' % ('0' if k == 0 else 'n' if k == n else 'gt' if k > n else 'mid'),
                                                      'reloaded_first' if reload_first else 'in_memory'],
                           rollback_group=group, k=k, n=n, nontrivial=k < n, info=info)
+                # rejected rollbacks far beyond n (the largest size_t in particular: "undo the last iteration" on a checkpoint without results
+                # asks for size() - 1), before any run and after one; whatever is rejected must leave the checkpoint usable and unchanged
+                for big in rng.sample([n + 2, 1000, 2 ** 32, 2 ** 63, 2 ** 64 - 2, 2 ** 64 - 1], 2) + [2 ** 64 - 1]:
+                    reload_first = rng.random() < 0.5
+                    j = rng.randint(0, n)
+                    ops = [['rollback', big], ['text'], ['run', calls]] + ([['reload']] if reload_first else []) + \
+                          [['rollback', big], ['text'], ['dump'], ['rollback', j], ['text'], ['run', calls[j:]], ['text']]
+                    c.add(t, 'run', [e for e in s0 if e[0] != 'ops'] + [['ops', ops]], classes=cl + ['rollback_gt', 'rollback_far_beyond_n', 'reloaded_first' if reload_first else 'in_memory'],
+                          nontrivial=True, info=info)
                 # the truncated runs to compare with
                 for k in range(n + 1):
                     s = [e for e in s0 if e[0] != 'ops'] + [['ops', [['run', calls[:k]], ['text'], ['run', calls[k:]], ['text']]]]
